@@ -541,6 +541,14 @@ pub fn run(ctx: &Ctx) -> Report {
         all_cases(ctx.tier)
     };
     report.max_counter("max_cases_total", cases.len() as u64);
+    // family S first (a few seconds): the published snapshot at every cut of every schedule of the
+    // chain service's threads
+    if ctx.replay.is_none() {
+        crate::props::c01::sched_family_with_monitor(ctx, &mut report, &sched_monitor, None);
+        if !report.machinery_errors.is_empty() {
+            return report;
+        }
+    }
     // group by universe so that each universe is built once per worker; shard by universe
     let mut groups: Vec<(UniverseSpec, Vec<(usize, Case)>)> = vec![];
     for (i, c) in cases.into_iter().enumerate() {
@@ -587,9 +595,5 @@ pub fn run(ctx: &Ctx) -> Report {
     }
     report.count("forge_boots", forge.boots as u64);
     drop(forge);
-    // family S: the published snapshot at every cut of every schedule of the chain service's threads
-    if ctx.replay.is_none() && report.machinery_errors.is_empty() && report.cap_hit.is_none() {
-        crate::props::c01::sched_family_with_monitor(ctx, &mut report, &sched_monitor, None);
-    }
     report
 }
